@@ -216,7 +216,7 @@ UNITS['matchers'] = {
         "PM_EQ_T": "13param_matchesINS_17predicate_matcherINS_7lambdas5equalENS2_13equal_printerENS_13typed_matcherIiEEJiEEE",
         "PM_LT_T": "13param_matchesINS_17predicate_matcherINS_7lambdas4lessENS2_12less_printerENS_13typed_matcherIiEEJiEEE",
         "PM_WILD": "13param_matchesINS_8wildcardESt17reference_wrapperIiEE",
-        "PM_ANYT": "13param_matchesINS_17predicate_matcherINS_7lambdas13any_predicateE",
+        "PM_ANYT": "13param_matchesINS_17predicate_matcherINS_7lambdas13any_predicateENS2_11any_printerENS_13typed_matcherIiEEJEEESt17reference_wrapperIiEE",
         "PM_VALUE": "13param_matchesIiSt17reference_wrapperIiEE",
         "PM_MEMBER": "13param_matchesINS_17predicate_matcherINS_4impl17member_is_matcherI.*6vp_absILi1EEE",
         "PM_RE": "13param_matchesINS_17predicate_matcherINS_7lambdas11regex_checkE.*St17reference_wrapperIPKcEE",
@@ -233,6 +233,7 @@ UNITS['matchers'] = {
         "PM_NE_NULL": "13param_matchesINS_17predicate_matcherINS_7lambdas9not_equalE.*18duck_typed_matcherIS3_JDnEEEJDnEEESt17reference_wrapperIPiEE",
         "PM_NULLPTR": "13param_matchesIDnSt17reference_wrapperIPiEE",
         "PM_DEREF_EQ": "13param_matchesINS_9ptr_derefINS_17predicate_matcherINS_7lambdas5equalE.*JiEEEJiEEEEESt17reference_wrapperIPiEE",
+        "PM_NOT_DEREF_EQ": "13param_matchesINS_11not_matcherINS_9ptr_derefINS_17predicate_matcherINS_7lambdas5equalE.*St17reference_wrapperIPiEE",
         "PM_DEREF_NOT_GT": "13param_matchesINS_9ptr_derefINS_11not_matcherINS_17predicate_matcherINS_7lambdas7greaterE.*St17reference_wrapperIPiEE",
 },
 }
